@@ -16,7 +16,9 @@ THEOREMS = ['Dsd.C07.' + t for t in THEOREM_NAMES] + ['Dsd.PyExprs.py_wrap_eq_mo
                                                          'Dsd.PyFuncs.py_rotate_pairs', 'Dsd.PyFuncs.py_rotate_error_kind',
                                                          'Dsd.PyFuncs.py_rotate_short_structure_faults',
                                                          # rotate_complex_pt (recursive generator) as written in the source
-                                                         'Dsd.PyFuncs.py_rotate_complex_pt_eq', 'Dsd.PyFuncs.py_rotate_empty_stab_faults']
+                                                         'Dsd.PyFuncs.py_rotate_complex_pt_eq', 'Dsd.PyFuncs.py_rotate_empty_stab_faults',
+                                                         'Dsd.PyFuncs.py_rotate_complex_db_eq_pt', 'Dsd.PyFuncs.py_rotate_complex_db_eq',
+                                                         'Dsd.PyFuncs.py_rotate_complex_db_wellformed', 'Dsd.PyFuncs.py_rotate_complex_db_no_strand']
 ASSUMPTIONS = [
     'rotate_complex_once / rotate_complex_pt are hand-modelled (Model/Complex.lean: rotateOnce, rotatePtOnce, rotationsPt) and tied '
     'to the code by the correspondence streams rot1 / rotpt',
@@ -272,7 +274,11 @@ def run(res, proof):
         core.compare_streams(res, 'complex_utils.rotation', lines, impl, model)
     except core.DriverBroken as e:
         proof.problem('driver', str(e))
-    cu.source_derived_stream(res, proof, 'complex_utils.rotation.source-derived', ops, impl)
+    # rotate_complex_db (list form) on the same complexes, for the source-derived generator
+    dbops = [('rotdb', op[1], op[2]) for op in ops if op[0] == 'rot1']
+    dbimpl = [cu.impl_op(cux, op) for op in dbops]
+    res.evaluations += len(dbops)
+    cu.source_derived_stream(res, proof, 'complex_utils.rotation.source-derived', ops + dbops, impl + dbimpl)
     for op in ops[::max(1, len(ops) // 8)]:
         res.sample('\t'.join(op))
 
